@@ -14,6 +14,12 @@ corr(ctx):
      composition sets reach the solver with refreshed state variables, samples are used under their own tag,
      removeCache empties the touched caches, a query for phase p writes no cache entry of another phase and starts no
      equilibrium from composition sets of another phase.
+  E. diffusion node loops (SinglePhaseModel._getFluxes, HomogenizationModel._getFluxes -> computeMobility) on SHALLOW profiles
+     (neighbours differing by 1e-12..1e-4 relative: ramps, noisy plateaus, plateau-ramp-plateau), cache off or precision 4..10:
+     the interdiffusivity (recovered from the fluxes) / mobility + chemical potentials the model uses at node i must equal a
+     node-by-node reference without any table at the node's OWN composition (rtol 1e-9) — resp. at the first node with the same
+     key when the cache is on; the nodes at which the thermodynamics is evaluated are compared with KawinV.HashCache.cachedQuery
+     threaded over the nodes (driver verb nodes.run).
   D. MONITORED (oracle only): numerical purity of the pycalphad-backed values — every value of the warmed object is
      compared with a cleared reference object (and some brand-new objects), arrays vs single points, arguments
      compared before/after every public call.
@@ -25,8 +31,8 @@ from vlib import Result, enc_list, f2b, b2f, close
 
 PROP = 'C09'
 META = {
-    'level_text': 'Lean 4 theorems, for every operation/query sequence of any length (induction), about executable models of (1) the HashTable of the diffusion models: a hit only ever returns a value stored under the same key at the same sensitivity with no clear in between, after enableCaching(False) nothing is returned or stored, the retrieve-else-compute-and-add idiom returns f at an argument with the same key, the int64 key is faithful inside its range (and the shipped int32 key, the shipped is-None switch and the shipped non-clearing setHashSensitivity are proved wrong on concrete witnesses); (2) the broadcasting helpers: equal lengths on success, singleton repeated, unequal lengths rejected, every array query is map-single over the broadcast pairs (also with the cache state threaded through), the caller\'s gExtra is not modified, the isothermal shortcut of the binary interfacial composition is taken iff all temperatures are equal and then evaluates exactly the broadcast (T, GE) points (binaryIC_isothermal/_nonisothermal/_points); (3) the cache state machine of the thermodynamics classes with pycalphad as a parameter: every solver call that receives cached composition sets receives them with the state variables of its own conditions, sampled points are only used under their own temperature tag and changing the density empties them, removeCache leaves the touched caches empty, each branch of the tangent method leaves a stated precipitate entry (empty after the collapsed branch: tangent_collapsed_leaves_empty), every cache is keyed by the phase it belongs to — a query with phase=/precPhase= p changes no entry of another phase (Kept) and its answer and own entries are determined by the entries of p alone, whatever the other phases hold (Agree/Sim, query_ignores_other_phases, diffusivity_unaffected_by_other_phase) — and IF the solver is start-independent (hypothesis) every query result after any history equals the result on a new object and is an explicit function of the arguments. All three models are tied to /repo on every run (exact differential correspondence for (1),(2); trace refinement of instrumented real runs — all cache slots of all phases compared after every query — on the shipped Al-Zr, Ni-Al-Cr, Al-Mg-Si (five precipitate phases, precPhase= varied), Fe-Cr-Ni (FCC_A1 + BCC_A2 with mobilities, phase= varied) and binary Ni-Al (ordered FCC_L12) objects for (3)); driving-force sequences go undersaturated -> supersaturated -> back on one object for all four methods, temperature arrays are all-equal / first=last!=middle / two-equal / free.',
-    'level_note': 'MONITORED ONLY (oracle, no proof): numerical purity of the pycalphad-backed values, i.e. that the real minimiser is start-independent to the solver tolerance — query sequences (orders, repetitions, temperature jumps, removeCache on/off, alone vs in arrays, cleared vs brand-new vs warmed objects) on the shipped Al-Zr, Ni-Al-Cr, Al-Mg-Si and Fe-Cr-Ni objects, with non-default phase=/precPhase= arguments interleaved, compared at rtol 1e-6; the vectorised GE axis of BinaryThermodynamics.getInterfacialComposition (one pycalphad workspace). Not modelled: computeSearchDir=True, local_phase_sampling_conditions (held at None; the sample cache is tagged by T only), impingementFactor, _interfacialCompositionFromCurvature, phase_records.models switching in _setupSubModels. Trusted: Python hash of an int tuple is injective on the keys met (hash(-1)==hash(-2) concerns negative components only); NumPy float->int cast semantics as observed on this platform (out of range -> minimum). Findings kept in the code (known_findings.txt, each emitted under its own key only for its own class, identified from the instrumented trace): curvatureFactor / getGrowthAndInterfacialComposition answer with the previous output when the equilibrium at their arguments yields no two-phase result and a cached equilibrium exists (Lean: curvature_res gives the exact characterisation); the cached list can lose the precipitate in place and then poisons later queries without searchDir; and the cached-start local equilibrium of _getCompositionSetsEq (curvature factors, approximate/curvature driving force) can find other phases than the global equilibrium of a new object near the phase boundary — i.e. the StartIndependent hypothesis of the purity theorem is FALSE for the real pycalphad local solver there; and the default tangent driving force of an ORDERED precipitate restarted from the cached composition set can reach another tangent point than from a fresh sample (binary Ni-Al: -169 instead of +270 J/mol after an undersaturated first query; key tangent-cached-start-other-stationary-point). The diffusivities, the interfacial compositions and the driving forces on stoichiometric precipitates showed no history dependence at rtol 1e-6.',
+    'level_text': 'Lean 4 theorems, for every operation/query sequence of any length (induction), about executable models of (1) the HashTable of the diffusion models: a hit only ever returns a value stored under the same key at the same sensitivity with no clear in between, after enableCaching(False) nothing is returned or stored, the retrieve-else-compute-and-add idiom returns f at an argument with the same key, the int64 key is faithful inside its range (and the shipped int32 key, the shipped is-None switch and the shipped non-clearing setHashSensitivity are proved wrong on concrete witnesses); (2) the broadcasting helpers: equal lengths on success, singleton repeated, unequal lengths rejected, every array query is map-single over the broadcast pairs (also with the cache state threaded through), the caller\'s gExtra is not modified, the isothermal shortcut of the binary interfacial composition is taken iff all temperatures are equal and then evaluates exactly the broadcast (T, GE) points (binaryIC_isothermal/_nonisothermal/_points); (3) the cache state machine of the thermodynamics classes with pycalphad as a parameter: every solver call that receives cached composition sets receives them with the state variables of its own conditions, sampled points are only used under their own temperature tag and changing the density empties them, removeCache leaves the touched caches empty, each branch of the tangent method leaves a stated precipitate entry (empty after the collapsed branch: tangent_collapsed_leaves_empty), every cache is keyed by the phase it belongs to — a query with phase=/precPhase= p changes no entry of another phase (Kept) and its answer and own entries are determined by the entries of p alone, whatever the other phases hold (Agree/Sim, query_ignores_other_phases, diffusivity_unaffected_by_other_phase) — and IF the solver is start-independent (hypothesis) every query result after any history equals the result on a new object and is an explicit function of the arguments. All three models are tied to /repo on every run (exact differential correspondence for (1),(2); trace refinement of instrumented real runs — all cache slots of all phases compared after every query — on the shipped Al-Zr, Ni-Al-Cr, Al-Mg-Si (five precipitate phases, precPhase= varied), Fe-Cr-Ni (FCC_A1 + BCC_A2 with mobilities, phase= varied) and binary Ni-Al (ordered FCC_L12) objects for (3)); driving-force sequences go undersaturated -> supersaturated -> back on one object for all four methods, temperature arrays are all-equal / first=last!=middle / two-equal / free. Round 6: (4) the solves-but-unstable / unconverged branch of _getCompositionSetsForDF leaves the driving-force entry of that precipitate empty (unstable_branch_leaves_empty; witness unstable_branch_keeping_variant_history_dependent on a local toy solver that cannot re-add a phase) — histories two-phase -> matrix-only -> the same two-phase point for all four methods on Ni-Al-Cr and Al-Zr, slot compared after every query and checked directly (df-cache-kept-after-unstable-equilibrium); (5) a curvatureFactor(removeCache=True) query — also through the invalid-equilibrium helper — leaves the curvature entry empty and answers None or newly computed factors, never the stored output of an earlier call (removeCache_true_leaves_empty_and_fresh; witness removeCache_true_variant_returns_earlier_output), MIXED removeCache sequences for curvatureFactor / getGrowthAndInterfacialComposition / impingementFactor; (6) the node loop of the diffusion models is cachedQuery threaded over the nodes: with the cache off every node gets the thermodynamics at its own composition (node_loop_off_own_values, node_miss_own_value; witness neighbour_copy_variant_chains), tied to SinglePhaseModel / HomogenizationModel on shallow profiles by nodes.run (which nodes evaluate the thermodynamics) and checked on the fluxes / mobilities at rtol 1e-9.',
+    'level_note': 'MONITORED ONLY (oracle, no proof): numerical purity of the pycalphad-backed values, i.e. that the real minimiser is start-independent to the solver tolerance — query sequences (orders, repetitions, temperature jumps, removeCache on/off, alone vs in arrays, cleared vs brand-new vs warmed objects) on the shipped Al-Zr, Ni-Al-Cr, Al-Mg-Si and Fe-Cr-Ni objects, with non-default phase=/precPhase= arguments interleaved, compared at rtol 1e-6; the vectorised GE axis of BinaryThermodynamics.getInterfacialComposition (one pycalphad workspace). Not modelled: computeSearchDir=True, local_phase_sampling_conditions (held at None; the sample cache is tagged by T only), the beta fallback of impingementFactor (finding impingement-none-falls-back-on-previous-beta; its curvatureFactor call is modelled), _interfacialCompositionFromCurvature, phase_records.models switching in _setupSubModels. Trusted: Python hash of an int tuple is injective on the keys met (hash(-1)==hash(-2) concerns negative components only); NumPy float->int cast semantics as observed on this platform (out of range -> minimum). Findings kept in the code (known_findings.txt, each emitted under its own key only for its own class, identified from the instrumented trace): curvatureFactor / getGrowthAndInterfacialComposition answer with the previous output when the equilibrium at their arguments yields no two-phase result and a cached equilibrium exists (Lean: curvature_res gives the exact characterisation); the cached list can lose the precipitate in place and then poisons later queries without searchDir; and the cached-start local equilibrium of _getCompositionSetsEq (curvature factors, approximate/curvature driving force) can find other phases than the global equilibrium of a new object near the phase boundary — i.e. the StartIndependent hypothesis of the purity theorem is FALSE for the real pycalphad local solver there; and the default tangent driving force of an ORDERED precipitate restarted from the cached composition set can reach another tangent point than from a fresh sample (binary Ni-Al: -169 instead of +270 J/mol after an undersaturated first query; key tangent-cached-start-other-stationary-point). The diffusivities, the interfacial compositions and the driving forces on stoichiometric precipitates showed no history dependence at rtol 1e-6.',
     'technique': 'Lean 4 proofs by induction over operation/query histories + exact model/implementation correspondence + trace refinement of instrumented real runs + differential oracle (warmed vs fresh objects)',
     'design_ref': 'DESIGN.md section 6, C09',
 }
@@ -706,7 +712,7 @@ def gen_queries(rng, kind, n):
                 curX = rng.choice(Xs)
         rm = rng.random() < 0.3
         names = ['df', 'df', 'df', 'interdiff', 'tracer', 'ic'] if kind in ('B', 'N') else \
-                ['df', 'df', 'df', 'interdiff', 'tracer', 'ic', 'curv', 'curv', 'growth', 'curv1']
+                ['df', 'df', 'df', 'interdiff', 'tracer', 'ic', 'curv', 'curv', 'growth', 'curv1', 'imp', 'mixed1']
         name = rng.choice(names)
         arr = rng.random() < 0.25
         if name in ('df', 'interdiff', 'tracer'):
@@ -735,6 +741,18 @@ def gen_queries(rng, kind, n):
         elif name == 'curv1':     # a single-phase composition: with a search direction, or without (fallback path)
             x1 = rng.choice(M_X1)
             qs.append(dict(name='curv', x=x1, T=curT, rm=rm, dir=([0.18, 0.06] if rng.random() < 0.5 else None)))
+        elif name == 'imp':
+            qs.append(dict(name='imp', x=curX, T=curT, rm=rm, dir=None))
+        elif name == 'mixed1':
+            # MIXED removeCache usage: a query that keeps its equilibrium, then removeCache=True queries at a single-phase
+            # composition without searchDir (curvature factors / growth / impingement)
+            qs.append(dict(name=rng.choice(['curv', 'imp']), x=curX, T=curT, rm=False, dir=None))
+            for _ in range(rng.randint(1, 2)):
+                x1 = rng.choice(M_X1); nm = rng.choice(['curv', 'growth', 'imp'])
+                if nm == 'growth':
+                    qs.append(dict(name='growth', x=x1, T=curT, rm=True, dG=rng.choice([200.0, 600.0]), R=[rng.uniform(1e-9, 5e-9)], g=[rng.uniform(50.0, 400.0)]))
+                else:
+                    qs.append(dict(name=nm, x=x1, T=curT, rm=True, dir=None))
         else:
             k = rng.randint(1, 3)
             qs.append(dict(name='growth', x=curX, T=curT, rm=rm, dG=rng.choice([200.0, 600.0]),
@@ -787,6 +805,12 @@ def call_public(th, q):
         r = th.getGrowthAndInterfacialComposition(x, float(q['T']), q['dG'], R, g, precPhase=q.get('pp'), removeCache=q['rm'])
         mod = not (np.array_equal(x, x0) and np.array_equal(R, R0) and np.array_equal(g, g0))
         return (None if r is None else tuple(r)), mod
+    if n == 'imp':
+        x = _arr(q['x']); x0 = x.copy()
+        d = None if q.get('dir') is None else _arr(q['dir']); d0 = copy.deepcopy(d)
+        r = th.impingementFactor(x, float(q['T']), precPhase=q.get('pp'), removeCache=q['rm'], searchDir=d)
+        mod = not (np.array_equal(x, x0) and (d is None or np.array_equal(d, d0)))
+        return (None if r is None else float(r)), mod
     if n == 'clear':
         th.clearCache(); return None, False
     if n == 'dens':
@@ -825,7 +849,7 @@ def vals_close(a, b, name):
             ok = close(u, w, RTOL, 100.0)
         elif name in ('ic',):
             ok = close(u, w, RTOL, 1e-3)
-        elif name in ('curv', 'growth'):
+        elif name in ('curv', 'growth', 'imp'):
             ok = close(u, w, 10 * RTOL, 0.0) or (abs(u) <= 1.0 and abs(w) <= 1.0 and abs(u - w) <= 1e-8)
         else:
             ok = close(u, w, RTOL, dscale)
@@ -877,6 +901,22 @@ def tangent_cached_start_class(method, q, vW, vRef, mk, events):
         if not cached or any(e[0] == 'S' for e in ev):
             return False
     return True
+
+
+def df_eq_outcome(ev, ph0, prec):
+    """outcome of the LAST two-phase equilibrium [matrix, prec] among the events of one single-point driving-force call
+    ('approximate' / 'curvature' methods): None (no such equilibrium), 'unconverged', 'unstable' (solved, but the matrix or
+    the precipitate is not among the stable phases), 'stable'"""
+    out = None
+    for e in ev:
+        if e[0] == 'L' and len(e[1]) == 2:
+            valid, phs = e[5], e[6]
+        elif e[0] == 'G':
+            valid, phs = e[4], e[5]
+        else:
+            continue
+        out = 'unconverged' if not valid else ('stable' if (ph0 in phs and prec in phs) else 'unstable')
+    return out
 
 
 def reset_ref(ref):
@@ -934,6 +974,7 @@ def run_sequence(ctx, res, kind, method, qs, inst, use_model, seq_id, progress=N
     prev = None
     dens = 2000
     after_switch = False
+    hist = []          # single-point driving-force queries since the last clear / method / density change: (q, matrix_only, unstable)
     for qi, q in enumerate(qs):
         desc = {'part': 'thermo', 'object': OBJ_NAME[kind], 'kind': kind, 'method': method,
                 'sequence': qs[:qi + 1], 'failing_query': q}
@@ -952,6 +993,8 @@ def run_sequence(ctx, res, kind, method, qs, inst, use_model, seq_id, progress=N
         events = list(inst.log); mk = list(marks)
         if mod:
             res.violate('query-modifies-arguments:%s' % n, 'public query %s modified an array passed to it' % n, desc)
+        if n in ('clear', 'method', 'dens'):
+            hist = []
         if n == 'clear':
             model_q.append('X'); real_q.append(None); prev = None
             continue
@@ -972,6 +1015,25 @@ def run_sequence(ctx, res, kind, method, qs, inst, use_model, seq_id, progress=N
         sit = situation(prev, q)
         if after_switch and n == 'df':
             sit = 'after-method-switch'; after_switch = False
+        # history two-phase point -> matrix-only point -> the SAME two-phase point, cache kept, on one object
+        prev_unstable = False
+        if n == 'df':
+            if q['arr']:
+                hist = []
+            else:
+                precq = q.get('pp') or (W.phases[1] if nph > 1 else None)
+                outc = [df_eq_outcome(events[m_[3]:m_[4]], ph0, precq) for m_ in mk if m_[0] == 'df']
+                unstable_now = any(o == 'unstable' for o in outc)
+                try:
+                    neg = vW is not None and vW[0] is not None and float(np.squeeze(vW[0])) <= 0
+                except (TypeError, ValueError):
+                    neg = False
+                if (len(hist) >= 2 and sit != 'after-method-switch' and hist[-1][1] and not hist[-2][1]
+                        and all(hist[-2][0].get(k_) == q.get(k_) for k_ in ('x', 'T', 'pp'))
+                        and all(hist[-1][0].get(k_) == q.get(k_) for k_ in ('T', 'pp')) and not hist[-1][0].get('rm') and not hist[-2][0].get('rm')):
+                    sit = 'two-phase-after-matrix-only'
+                    prev_unstable = hist[-1][2]
+                hist.append((q, unstable_now or neg, unstable_now))
         res.count('situation:' + sit)
         prev = q
         res.case(('thermo', kind, method, seq_id, qi, n), qi > 0)
@@ -1004,12 +1066,21 @@ def run_sequence(ctx, res, kind, method, qs, inst, use_model, seq_id, progress=N
         fb_used = any(e[0] == 'FB' and e[1] for e in events)
         if fb_used:
             res.count('curvature-fallback-used')
+        curv_none = any(m_[0] == 'curv' and m_[5] is None for m_ in mk)
         if not ok:
-            if n in ('curv', 'growth') and fb_used and vR is None:
+            if n in ('curv', 'growth', 'imp') and fb_used and q.get('rm'):
+                key = 'curvature-removeCache-true-returns-earlier-output'
+                what = ('%s(removeCache=True) at a condition without two-phase result (no searchDir) answered with the output of an EARLIER call that kept its '
+                        'equilibrium (removeCache=False); a new/cleared object answers %s' % (n, 'None' if vR is None else 'with its own factors'))
+            elif n == 'imp' and curv_none and vW is not None:
+                key = 'impingement-none-falls-back-on-previous-beta'
+                what = ('impingementFactor: the inner curvatureFactor call returned None (no cached equilibrium in play) and the query answered with the beta stored '
+                        'by an earlier query (_curvature_outputs is not reset by removeCache / clearCache); a new object answers None')
+            elif n in ('curv', 'growth', 'imp') and fb_used and vR is None:
                 key = 'curvature-fallback-previous-output'
                 what = ('curvatureFactor / getGrowthAndInterfacialComposition at a condition whose equilibrium gives no two-phase result (no searchDir): '
                         'a new/cleared object returns None, the warmed object answered from the output of its previous query')
-            elif n in ('curv', 'growth') and fb_used:
+            elif n in ('curv', 'growth', 'imp') and fb_used:
                 key = 'curvature-fallback-poisoned-cache'
                 res.count('class:poisoned-cache')
                 what = ('curvatureFactor / getGrowthAndInterfacialComposition at a two-phase condition: a new/cleared object computes the factors, the warmed object — whose cached '
@@ -1019,7 +1090,7 @@ def run_sequence(ctx, res, kind, method, qs, inst, use_model, seq_id, progress=N
                 what = ('getDrivingForce (tangent) on an ordered precipitate: the parallel-tangent local equilibrium started from the cached precipitate '
                         'composition set converged to another stationary point than the one reached from a fresh sample')
                 res.count('class:tangent-cached-start')
-            elif phase_set_mismatch(events, eventsR):
+            elif phase_set_mismatch(events, eventsR) and not (sit == 'two-phase-after-matrix-only' and prev_unstable):
                 key = 'cached-equilibrium-phase-set-differs-from-global'
                 what = ('%s: the two-phase equilibrium computed from the cached composition sets found phases %s, the global equilibrium of a cleared object %s '
                         '(pycalphad local solver is start-dependent near the phase boundary)' % (n, k2_phase_sets(events), k2_phase_sets(eventsR)))
@@ -1030,7 +1101,7 @@ def run_sequence(ctx, res, kind, method, qs, inst, use_model, seq_id, progress=N
         res.count('purity-compared')
         # ---------------- caches are keyed by phase: a query for phase p writes no entry of a phase q != p ...
         own_diff = (q.get('ph') or ph0) if n in ('interdiff', 'tracer') else None
-        own_prec = (q.get('pp') or (W.phases[1] if nph > 1 else None)) if n in ('df', 'ic', 'curv', 'growth') else None
+        own_prec = (q.get('pp') or (W.phases[1] if nph > 1 else None)) if n in ('df', 'ic', 'curv', 'growth', 'imp') else None
         snap1 = snapshot()
         for c in snap0:
             own = own_diff if c == '_diffusivity_cache' else own_prec
@@ -1148,6 +1219,20 @@ def run_sequence(ctx, res, kind, method, qs, inst, use_model, seq_id, progress=N
                                     [W._compset_cache_df.get(prec) is not None, W._matrix_cs is not None, pc.samples is not None])
                 if mname == 'curv' and W._compset_cache_curvature.get(prec) is not None:
                     res.violate('removeCache-leaves-cache:curvature', 'removeCache=True left _compset_cache_curvature[%s] populated' % prec, desc)
+            # direct oracle: a removeCache=True curvature query never hands out the stored output object of an earlier call
+            if mname == 'curv' and rm and any(e[0] == 'FB' and e[1] for e in ev):
+                res.violate('curvature-removeCache-true-returns-earlier-output',
+                            'curvatureFactor(removeCache=True) (called by %s) returned the CurvatureOutput object stored by an earlier call instead of None / new factors' % n,
+                            desc, flat(tuple(r))[:6] if r is not None else None, 'None or newly computed factors')
+            # direct oracle: the 'solves-but-unstable' and the 'unconverged' branch of _getCompositionSetsForDF leave no list behind
+            if mname == 'df' and method in ('approximate', 'curvature') and last:
+                oc = df_eq_outcome(ev, ph0, prec)
+                res.count('df-eq-outcome:%s' % oc)
+                if oc in ('unstable', 'unconverged') and W._compset_cache_df.get(prec) is not None:
+                    res.violate('df-cache-kept-after-%s-equilibrium:%s' % (oc, method),
+                                "getDrivingForce ('%s'): the two-phase equilibrium at this point was %s, yet _compset_cache_df[%s] still holds a composition-set list "
+                                '(phases %s) that later queries start from' % (method, oc, prec, [cs.phase_record.phase_name for cs in W._compset_cache_df[prec]]),
+                                desc, [cs.phase_record.phase_name for cs in W._compset_cache_df[prec]], None)
             qid += 1
     # a brand-new object must agree with the warmed one on the last point queries
     fresh_checked = 0
@@ -1309,6 +1394,33 @@ def corr_thermo(ctx, res, use_model=True):
                        dict(name='curv', x=ax, T=A_T[1], rm=True, dir=None, pp='B_PRIME_L'), dict(name='ic', x=ax, T=aT, g=[0.0, 500.0], arr=True, pp='U2_PHASE'),
                        dict(name='growth', x=ax, T=aT, rm=False, dG=6000.0, R=[1e-9, 2e-9], g=[300.0, 150.0], pp='MGSI_B_P'),
                        dict(name='df', x=[ax, A_X[1]], T=[aT, A_T[1]], rm=False, arr=True, pp='U2_PHASE'), dict(name='df', x=ax, T=aT, rm=False, arr=False, pp='U1_PHASE')]
+        # driving-force HISTORIES: two-phase point -> matrix-only point -> the SAME two-phase point, cache kept, one object, every
+        # method (situation 'two-phase-after-matrix-only'); scripted points + points drawn from the pools
+        rng = ctx.rng
+        for mth in ['approximate', 'curvature', 'sampling', 'tangent']:
+            for kind_, P_, U_, T_ in [('M', M_X2[1], [0.01, 0.01], M_T[1]), ('B', B_X[0], 2e-5, B_T[1]),
+                                      ('M', rng.choice(M_X2[:4]), rng.choice(XUNDER['M']), rng.choice(M_T[:3])),
+                                      ('B', rng.choice(B_X[:4]), rng.choice(XUNDER['B']), rng.choice(B_T[:3]))]:
+                if kind_ == 'B' and mth in ('sampling', 'tangent') and not ctx.n(0, 1):
+                    continue
+                U2_ = rng.choice(XUNDER[kind_])
+                hq = [dict(name='df', x=P_, T=T_, rm=False, arr=False), dict(name='df', x=U_, T=T_, rm=False, arr=False),
+                      dict(name='df', x=P_, T=T_, rm=False, arr=False), dict(name='df', x=U2_, T=T_, rm=False, arr=False),
+                      dict(name='df', x=P_, T=T_, rm=False, arr=False)]
+                seq_guarded(ctx, res, kind_, mth, hq, inst, use_model, 'h' + mth + kind_); sid += 1
+        # MIXED removeCache usage on one multicomponent object: a query that keeps its equilibrium, then removeCache=True queries
+        # at single-phase compositions without searchDir (curvature factors, growth, impingement)
+        g1 = dict(dG=600.0, R=[1e-9, 2e-9], g=[300.0, 150.0])
+        mixed_M = [dict(name='curv', x=x2, T=T0, rm=False, dir=None), dict(name='curv', x=x1, T=T0, rm=True, dir=None),
+                   dict(name='growth', x=x2, T=T0, rm=False, **g1), dict(name='growth', x=x1, T=T0, rm=True, **g1),
+                   dict(name='imp', x=x2, T=T0, rm=False, dir=None), dict(name='imp', x=M_X1[0], T=T0, rm=True, dir=None),
+                   dict(name='curv', x=M_X2[1], T=M_T[1], rm=False, dir=None), dict(name='growth', x=M_X1[2], T=M_T[1], rm=True, **g1),
+                   dict(name='curv', x=M_X2[1], T=M_T[1], rm=False, dir=None), dict(name='curv', x=x1, T=M_T[1], rm=True, dir=None),
+                   dict(name='curv', x=M_X2[1], T=M_T[1], rm=True, dir=None)]
+        seq_guarded(ctx, res, 'M', 'tangent', mixed_M, inst, use_model, 'mx1'); sid += 1
+        mixed_A = [dict(name='curv', x=A_X[0], T=A_T[0], rm=False, dir=None, pp='B_PRIME_L'), dict(name='curv', x=[2e-5, 2e-5], T=A_T[0], rm=True, dir=None, pp='B_PRIME_L'),
+                   dict(name='imp', x=A_X[0], T=A_T[0], rm=False, dir=None, pp=None), dict(name='curv', x=[2e-5, 2e-5], T=A_T[0], rm=True, dir=None, pp=None)]
+        seq_guarded(ctx, res, 'A', 'tangent', mixed_A, inst, use_model, 'mx2'); sid += 1
         seq_guarded(ctx, res, 'F', 'tangent', scripted_F, inst, use_model, 's6'); sid += 1
         seq_guarded(ctx, res, 'A', 'tangent', scripted_A5, inst, use_model, 's7'); sid += 1
         seq_guarded(ctx, res, 'B', 'tangent', scripted_B, inst, use_model, 's2'); sid += 1
@@ -1330,6 +1442,212 @@ def corr_thermo(ctx, res, use_model=True):
         inst.close()
 
 
+# =============================================================================================== E. diffusion node loops
+_DIFF = {}
+DN_SYS = {
+    'single-phase:NiCr': dict(model='single-phase', db='NICRAL_TDB', els=['NI', 'CR'], phases=['FCC_A1'], tphases=['FCC_A1', 'BCC_A2'],
+                              base=[[0.2], [0.05], [0.31]], T=[1073.0, 1273.15, 1473.15]),
+    'single-phase:NiCrAl': dict(model='single-phase', db='NICRAL_TDB', els=['NI', 'CR', 'AL'], phases=['FCC_A1'], tphases=['FCC_A1', 'BCC_A2'],
+                                base=[[0.1, 0.05], [0.077, 0.054], [0.2, 0.02]], T=[1473.15, 1373.15]),
+    'homogenization:FeCrNi': dict(model='homogenization', db='FECRNI_DB', els=['FE', 'CR', 'NI'], phases=['FCC_A1', 'BCC_A2'], tphases=['FCC_A1', 'BCC_A2'],
+                                  base=[[0.3, 0.1], [0.25, 0.05], [0.4, 0.2]], T=[1373.15, 1273.15]),
+}
+
+
+def dn_therm(sysname, which):
+    """thermodynamics objects of the diffusion part: 'model' (handed to the diffusion model) and 'ref' (node-by-node reference)"""
+    key = (vlib.REPO, sysname, which)
+    if key not in _DIFF:
+        import kawin.tests.datasets as DS
+        from kawin.thermo import GeneralThermodynamics
+        S = DN_SYS[sysname]
+        _DIFF[key] = GeneralThermodynamics(getattr(DS, S['db']), S['els'], S['tphases'])
+    return _DIFF[key]
+
+
+def gen_dn_case(rng, sysname, N=None, kind=None, rel=None, cache=None, sens=None):
+    """a SHALLOW profile: neighbouring nodes differ by 1e-12 .. 1e-4 relative (long gentle ramps, plateaus with tiny noise,
+    plateaus joined by a gentle ramp, exactly flat stretches), cache off or precision 4..10"""
+    S = DN_SYS[sysname]
+    hom = S['model'] == 'homogenization'
+    N = N or (rng.randint(5, 9) if hom else rng.randint(12, 60))
+    kind = kind or rng.choice(['ramp', 'ramp', 'ramp', 'noise', 'plateau-ramp-plateau', 'flat-then-ramp'])
+    rel = rel or 10.0 ** rng.uniform(-12, -4)
+    if rng.random() < 0.5:
+        rel = 10.0 ** rng.uniform(-7.5, -5.3)        # below np.allclose / above the resolution of the finer keys
+    base = rng.choice(S['base'])
+    T = rng.choice(S['T'])
+    x = []
+    for b in base:
+        sgn = rng.choice([1.0, 1.0, -1.0]); f = rng.uniform(0.3, 1.0)
+        if kind == 'ramp':
+            row = [b * (1 + sgn * f * rel * i) for i in range(N)]
+        elif kind == 'noise':
+            row = [b * (1 + rel * rng.uniform(-1, 1)) for i in range(N)]
+        elif kind == 'plateau-ramp-plateau':
+            a, c = N // 3, 2 * N // 3
+            row = [b * (1 + sgn * f * rel * min(max(i - a, 0), c - a)) for i in range(N)]
+        else:
+            a = N // 2
+            row = [b * (1 + sgn * f * rel * max(i - a, 0)) for i in range(N)]
+        x.append(row)
+    cache = (rng.random() < 0.55) if cache is None else cache
+    sens = sens if sens is not None else (rng.randint(4, 10) if cache else rng.choice([4, 4, 8]))
+    return dict(part='diffnodes', system=sysname, N=N, kind=kind, rel=rel, x=x, T=T, cache=bool(cache), sens=int(sens))
+
+
+def run_dn_case(c):
+    """runs the real model on the profile; returns (what the model used, node-by-node reference, bookkeeping)"""
+    from kawin.diffusion import SinglePhaseModel, HomogenizationModel
+    import kawin.diffusion.Homogenization as HM
+    from kawin.diffusion.HomogenizationParameters import computeHomogenizationFunction
+    S = DN_SYS[c['system']]
+    N = c['N']
+    th = dn_therm(c['system'], 'model'); ref = dn_therm(c['system'], 'ref')
+    th.clearCache(); ref.clearCache()
+    hom = S['model'] == 'homogenization'
+    M = (HomogenizationModel if hom else SinglePhaseModel)([-1e-3, 1e-3], N, S['els'], S['phases'])
+    for e, row in zip(S['els'][1:], c['x']):
+        M.setCompositionLinear(row[0], row[-1], e)
+    M.setTemperature(c['T']); M.setThermodynamics(th)
+    M.setHashSensitivity(c['sens'])
+    M.useCache(c['cache'])
+    M.setup()
+    M.x = np.array(c['x'], dtype=np.float64)
+    M.hashTable.clearCache()
+    x0 = M.x.copy()
+    Tn = np.array(M.temperatureParameters(M.z, 0), dtype=np.float64)
+    # expected source node of every node: itself with the cache off, the FIRST node with the same key with the cache on
+    keys = [exact_key(c['sens'], M.x[:, i], Tn[i]) for i in range(N)]
+    src = []
+    for i in range(N):
+        src.append(i if not c['cache'] else next(j for j in range(i + 1) if keys[j] == keys[i]))
+    evaluated = []      # compositions at which the model asked the thermodynamics
+    out = {}
+    if not hom:
+        orig = th.getInterdiffusivity
+
+        def spy(x, T, *a, **k):
+            evaluated.append(np.array(x, dtype=np.float64).ravel().copy())
+            return orig(x, T, *a, **k)
+        th.getInterdiffusivity = spy
+        try:
+            fl = np.array(M._getFluxes(0, [M.x]), dtype=np.float64)
+        finally:
+            del th.getInterdiffusivity
+        out['fluxes'] = fl
+        D = {}
+        for j in sorted(set(src)):
+            ref.clearCache()
+            D[j] = np.array(ref.getInterdiffusivity(x0[:, j] if len(S['els']) > 2 else x0[0, j], Tn[j], removeCache=True, phase=S['phases'][0]), dtype=np.float64)
+        d = np.array([D[j] for j in src])
+        dmid = 0.5 * (d[1:] + d[:-1]); dxdz = (x0[:, 1:] - x0[:, :-1]) / M.dz
+        if len(S['els']) == 2:
+            exp = (-dmid * dxdz[0])[None, :]; scale = np.abs(exp)
+        else:
+            exp = -np.einsum('kij,jk->ik', dmid, dxdz); scale = np.einsum('kij,jk->ik', np.abs(dmid), np.abs(dxdz))
+        out['exp'] = exp; out['scale'] = scale; out['got'] = fl[:, 1:-1]
+    else:
+        rec = []
+        orig_f = HM.computeHomogenizationFunction
+        orig_eq = th.getEq
+
+        def spy_eq(x, T, *a, **k):
+            evaluated.append(np.array(x, dtype=np.float64).ravel().copy())
+            return orig_eq(x, T, *a, **k)
+
+        def spy_f(*a, **k):
+            r = orig_f(*a, **k); rec.append(r); return r
+        HM.computeHomogenizationFunction = spy_f; th.getEq = spy_eq
+        try:
+            M._getFluxes(0, [M.x])
+        finally:
+            HM.computeHomogenizationFunction = orig_f; del th.getEq
+        am, mu = rec[0]
+        R = {}
+        for j in sorted(set(src)):
+            a1, m1 = computeHomogenizationFunction(ref, x0.T[j:j + 1], Tn[j:j + 1], M.homogenizationParameters, None)
+            R[j] = np.concatenate([np.ravel(a1), np.ravel(m1)])
+        out['got'] = np.array([np.concatenate([np.ravel(am[i]), np.ravel(mu[i])]) for i in range(N)]).T
+        out['exp'] = np.array([R[j] for j in src]).T
+        out['scale'] = np.abs(out['exp'])
+    out['modified'] = not np.array_equal(M.x, x0)
+    out['src'] = src; out['keys'] = keys; out['x0'] = x0; out['Tn'] = Tn
+    # nodes at which the thermodynamics was evaluated (calls are matched to nodes in order)
+    ev_nodes = []; pos = 0
+    for xe in evaluated:
+        while pos < N and not np.array_equal(np.ravel(x0[:, pos]), xe[:x0.shape[0]]):
+            pos += 1
+        if pos < N:
+            ev_nodes.append(pos); pos += 1
+    out['evaluated'] = ev_nodes; out['ncalls'] = len(evaluated)
+    return out
+
+
+def check_dn_case(res, c, out):
+    """direct oracle: the value used at node i is the thermodynamics at node i's OWN composition (cache off / own key)"""
+    S = DN_SYS[c['system']]
+    hom = S['model'] == 'homogenization'
+    got, exp, scale = out['got'], out['exp'], out['scale']
+    src = out['src']
+    if out['modified']:
+        res.violate('diffusion-fluxes-modify-profile', '_getFluxes changed the composition profile handed to it', c)
+    bad = np.argwhere(~(np.abs(got - exp) <= 1e-9 * scale + 1e-300))
+    if len(bad):
+        k = int(bad[0][1])
+        nodes = [k] if hom else [k, k + 1]
+        own = all(src[i] == i for i in nodes)
+        cls = 'cache-off' if not c['cache'] else ('distinct-keys' if own else 'shared-key')
+        head = 'diffusion-node-value-from-neighbour' if cls != 'shared-key' else 'diffusion-node-value-differs'
+        rel = float(np.max(np.abs(got - exp)[:, k] / np.maximum(scale[:, k], 1e-300)))
+        res.violate('%s:%s:%s' % (head, S['model'], cls),
+                    ('%s on %s: the %s used at %s %d is not the thermodynamics evaluated at the node\'s own composition (relative deviation %.3g, '
+                     '%d node(s)/face(s) off); cache %s, precision %d, neighbouring nodes differ by %.3g relative; thermodynamics was evaluated at %d of %d nodes')
+                    % (S['model'], c['system'], 'mobility / chemical potential' if hom else 'interdiffusivity (recovered from the flux)', 'node' if hom else 'face',
+                       k, rel, len(set(int(b[1]) for b in bad)), 'on' if c['cache'] else 'OFF', c['sens'], c['rel'], len(out['evaluated']), c['N']),
+                    dict(c, failing_index=k), np.ravel(got[:, k]).tolist()[:6], np.ravel(exp[:, k]).tolist()[:6])
+    return not len(bad)
+
+
+def corr_diffnodes(ctx, res, use_model=True):
+    rng = ctx.rng
+    cases = [gen_dn_case(rng, 'single-phase:NiCr', N=ctx.n(40, 100), kind='ramp', rel=5e-6, cache=False, sens=4),
+             gen_dn_case(rng, 'single-phase:NiCr', N=ctx.n(40, 100), kind='ramp', rel=5e-6, cache=True, sens=8),
+             gen_dn_case(rng, 'single-phase:NiCrAl', N=ctx.n(20, 60), kind='ramp', rel=2e-6, cache=False, sens=4),
+             gen_dn_case(rng, 'homogenization:FeCrNi', N=ctx.n(6, 20), kind='ramp', rel=3e-6, cache=False, sens=4)]
+    for sysname, n in [('single-phase:NiCr', ctx.n(4, 30)), ('single-phase:NiCrAl', ctx.n(3, 20)), ('homogenization:FeCrNi', ctx.n(2, 12))]:
+        cases += [gen_dn_case(rng, sysname) for _ in range(n)]
+    lines, keep = [], []
+    for k, c in enumerate(cases):
+        ok, out = vlib.guarded(res, 'diffusion-node-loop', c, run_dn_case, c)
+        if not ok:
+            res.count('diffnodes:raised'); continue
+        good = check_dn_case(res, c, out)
+        own = sum(1 for i, j in enumerate(out['src']) if i == j)
+        res.case(('diffnodes', k, c['system'], c['N'], c['cache'], c['sens']), own > 1)
+        res.count('diffnodes:' + c['system']); res.count('diffnodes:cache-' + ('on' if c['cache'] else 'off'))
+        res.count('diffnodes:nodes', c['N']); res.count('diffnodes:nodes-with-own-key', own)
+        res.count('diffnodes:kind:' + c['kind'])
+        if k == 0:
+            res.sample({'part': 'diffnodes', 'system': c['system'], 'N': c['N'], 'rel': c['rel'], 'cache': c['cache'], 'sens': c['sens'], 'ok': good})
+        toks = ['nodes.run', 'T' if c['cache'] else 'F', str(c['sens']), str(c['N'])]
+        for i in range(c['N']):
+            toks += [enc_list([float(v) for v in out['x0'][:, i]]), f2b(float(out['Tn'][i]))]
+        lines.append(' '.join(toks)); keep.append((c, out))
+    if use_model and ctx.driver_ok and lines:
+        ans = vlib.run_driver(PROP, lines)
+        for (c, out), a in zip(keep, ans):
+            if not a.startswith('ok '):
+                res.disagree('nodes.run model error', c, 'ok', a[:200]); continue
+            mt = a[3:].split()
+            impl = ['M' if i in set(out['evaluated']) else 'H%d' % out['src'][i] for i in range(c['N'])]
+            if mt != impl or out['ncalls'] != len(out['evaluated']):
+                j = next((i for i, (u, w) in enumerate(zip(impl, mt)) if u != w), None)
+                res.disagree('diffusion node loop: nodes at which the thermodynamics is evaluated / whose value is reused (first difference at node %s)' % j,
+                             c, impl, mt)
+            res.traces += 1
+
+
 def corr(ctx, oracle_only=False):
     vlib.use_repo()
     warnings.simplefilter('ignore')
@@ -1337,12 +1655,15 @@ def corr(ctx, oracle_only=False):
     res.rule = ('A: random HashTable op sequences (3-40 ops; sensitivities 0..12/15; 1-4 components; repeats below/at the key resolution; '
                 'values beyond 2^31; enable/disable/clear/setSens) — non-trivial = at least one hit; '
                 'B: random scalar/1-d/2-d arguments incl. empty and mismatched lengths for the three helpers and the two hand-rolled broadcasts; '
-                'C/D: random query sequences on the shipped Al-Zr and Ni-Cr-Al objects — non-trivial = warmed caches in use; distinct = (part, index, shape)')
+                'C/D: random query sequences on the shipped Al-Zr and Ni-Cr-Al objects — non-trivial = warmed caches in use; distinct = (part, index, shape); '
+                'E: shallow composition profiles (relative node-to-node step 1e-12..1e-4, half of them 3e-8..5e-6) on Ni-Cr / Ni-Cr-Al single-phase and Fe-Cr-Ni '
+                'homogenization models, cache off or precision 4..10 — non-trivial = more than one node with its own key')
     res.monitored = list(MONITORED)
     # every part runs inside an outer guard as well (harness errors are collected, re-raised at the end only if the run
     # found no violation); the cases / sequences inside each part have their own guards
     vlib.guarded(res, 'hash-part', {'part': 'hash'}, corr_hash, ctx, res, ctx.n(500, 6000), not oracle_only)
     vlib.guarded(res, 'broadcast-part', {'part': 'broadcast'}, corr_broadcast, ctx, res, ctx.n(800, 8000), not oracle_only)
+    vlib.guarded(res, 'diffnodes-part', {'part': 'diffnodes'}, corr_diffnodes, ctx, res, not oracle_only)
     vlib.guarded(res, 'thermo-part', {'part': 'thermo'}, corr_thermo, ctx, res, not oracle_only)
     vlib.finish_guard(res)
     return res
@@ -1371,6 +1692,15 @@ def replay(ctx, entry):
         return not viol
     if c.get('part') == 'thermo':
         return replay_thermo(ctx, c, key)
+    if c.get('part') == 'diffnodes' and 'x' in c:
+        r = Result()
+        c2 = {k_: v_ for k_, v_ in c.items() if k_ != 'failing_index'}
+        ok, out = vlib.guarded(r, 'diffusion-node-loop', c2, run_dn_case, c2)
+        if ok:
+            check_dn_case(r, c2, out)
+        for v in r.violations[:3]:
+            print('  ', v['key'], v['what'][:300])
+        return not r.violations
     # broadcast cases are regenerated from the recorded seed/tier (same generator order as corr: hash first)
     ctx = vlib.Ctx(PROP, entry.get('tier', 'quick'), int(entry.get('seed', 0)))
     ctx.driver_ok = False
